@@ -103,6 +103,11 @@ def renderRes : Outcome FsErr Disk → String
   | .err _ => "err"
   | .panic _ => "PANIC"
 
+/-- the executor runs every roll with fd 1 on `/dev/full` (harness `quiet_stdout`): stdout is not
+writable. With the roller as it is now (`printsOnError = false`) the value does not matter
+(`C07_failed_roll_is_error`). -/
+def stdoutWritable : Bool := false
+
 /-- the model's run: write the file, roll, snapshot — for every roll -/
 def runModel (c : Case) : Disk → List ROp → List String
   | _, [] => []
@@ -118,7 +123,7 @@ def runModel (c : Case) : Disk → List ROp → List String
         match deleteRoll c.file (fun _ => false) d1 with
         | (.ok a, b) => ((Outcome.ok a : Outcome FsErr Disk), b)
         | (.error e, b) => (.err e, b)
-      else rollU32 c.roller c.file (fun _ => false) d1
+      else rollProc stdoutWritable c.roller c.file (fun _ => false) d1
     (renderRes res ++ "|" ++ encSnap d2) :: runModel c d2 rest
 
 /-- background rotation: `roll` returns Ok once the file is renamed to the temp name (a missing
@@ -185,6 +190,8 @@ def tagsOf (c : Case) : List String :=
     | .zstd => if c.isDelete then [] else ["zst"]
     | .none => []) ++
   (if c.rolls.any Option.isNone then ["missing-file"] else []) ++
+  (if !c.isDelete && c.count ≠ 0 && (c.rolls.dropLast).any Option.isNone then ["missing-mid"] else []) ++
+  (if !c.isDelete && c.count ≥ 6 then ["big-window"] else []) ++
   (if c.ops.length ≠ c.rolls.length then ["dir-removed"] else []) ++
   (if !c.isDelete && c.count ≠ 0 && U32_MOD = c.base + c.count then ["u32-boundary"] else []) ++
   (if !c.isDelete && !representable c.base c.count then ["u32-unrepresentable"] else []) ++
@@ -197,11 +204,22 @@ def tagsOf (c : Case) : List String :=
 def signature (c : Case) (clause : String) : String :=
   if !c.isDelete && c.count ≠ 0 && U32_MOD ≤ c.base + c.count then "C07/base-plus-count-overflows-u32"
   else if clause = "build" then "C07/build-rejected"
-  else if clause = "roll panicked" then "C07/panic"
+  else if clause = "roll panicked" || clause = "roll never returned" then
+    -- input class of the finding "a failed final step was printed with println!": a compressing
+    -- pattern and a roll that finds no file (the codec's open fails)
+    if !c.isDelete && c.count ≠ 0 && compressionOf c.pattern ≠ .none && c.rolls.any Option.isNone then
+      "C07/failed-final-step-printed-to-unwritable-stdout"
+    else if clause = "roll panicked" then "C07/panic" else "C07/hang"
+  else if clause = "roll of a missing file changed the window" then "C07/missing-file-shifts-window"
+  -- background rotation: the phantom shift of a missing-file roll that was not awaited shows only at the
+  -- next snapshot, as slots that are off by the shift (same defect, same input class: a roll without a file)
+  else if c.bg.isSome && !c.isDelete && c.count ≠ 0 && c.rolls.any Option.isNone &&
+      (clause = "slot b+j does not hold the (j+1)-th most recent file" ||
+       clause = "older slots hold foreign content or are out of age order") then "C07/missing-file-shifts-window"
   else if clause = "roll failed" then "C07/roll-failed"
   else if clause = "rolled file still at its path" then "C07/rolled-file-remains"
   else if clause = "slot b+j does not hold the (j+1)-th most recent file" then "C07/wrong-slot-content"
-  else if clause = "older slot holds foreign content" then "C07/foreign-content"
+  else if clause = "older slots hold foreign content or are out of age order" then "C07/foreign-content"
   else "C07/frame"
 
 def handle : Handler := fun cas obs =>
